@@ -585,8 +585,16 @@ func runExecution(t *testing.T, r *mon.Run, cfg config) {
 	for _, c := range caps {
 		perFlush[c.flush]++
 	}
+	var lastFlush int64
+	for f := range perFlush {
+		if f > lastFlush {
+			lastFlush = f
+		}
+	}
 	for f, n := range perFlush {
-		if n != cfg.Workers {
+		// the newest flush may still be in progress when the snapshot is taken (a tick buffered in the
+		// ticker channel): it may have handed over fewer maps so far, never more
+		if n > cfg.Workers || (n != cfg.Workers && f != lastFlush) {
 			report("maps-per-flush", fmt.Sprintf("flush %d handed %d maps to the backend, %d aggregators", f, n, cfg.Workers))
 			break
 		}
